@@ -140,6 +140,16 @@ func isPMTSweep(c *mon.Ctx, pat psi.PAT, p *ref.PAT, r *gen.Rand, all bool) {
 		var pk packet.Packet
 		r.Fill(pk[4:])
 		pk[0], pk[1], pk[2], pk[3] = 0x47, byte(pid>>8)|byte(r.Intn(8))<<5, byte(pid), 0x10|byte(r.Intn(16))
+		if r.Bool() {
+			// the classification is by PID alone: adaptation-field-only packets, scrambled packets, ...
+			pk[3] = byte(r.Intn(4))<<6 | byte(1+r.Intn(3))<<4 | byte(r.Intn(16))
+			if pk[3]&0x20 != 0 {
+				pk[4] = byte(r.Intn(184))
+				if pk[3]&0x10 == 0 {
+					pk[4] = 183
+				}
+			}
+		}
 		g, err := psi.IsPMT(&pk, pat)
 		c.Eval(1)
 		if err != nil || g != vals[pid] {
